@@ -204,6 +204,9 @@ def alphabet(p, rnd, small=False):
     if p.has("color"):
         add(f"color,pos:{nb},r:4:{nb}")
         add(f"achro,r:2:{nb}", f"chro,pos:{nb}")
+        # (wave 15) one plane alone, right after a refresh: "chromatic-only" / "black-only" updates
+        add("disp", f"chro,r:7:{nb}")
+        add("disp", f"achro,r:8:{nb}")
     if p.has("base"):
         add(f"base,pos:{nb}")
     if p.has("refresh"):
@@ -249,6 +252,13 @@ def whole_panel_partials(p, rnd):
         if p.has(op):
             out.append([f"{op},r:{rnd.randint(1, 999)}:{W8 // 8 * p.h},0,0,{W8},{p.h}"])
             out.append([f"{op},r:{rnd.randint(1, 999)}:{8 * 16},0,0,64,16"])
+            # (wave 15) windows whose encoded END bytes alias the full window's in the low byte (a cache
+            # keyed on truncated coordinates confuses them with the full frame): rows 0 .. (H-1) % 256
+            if p.h > 256:
+                ha = (p.h - 1) % 256 + 1
+                out.append([f"{op},r:{rnd.randint(1, 999)}:{W8 // 8 * ha},0,0,{W8},{ha}"])
+                if W8 > 8:
+                    out.append([f"{op},r:{rnd.randint(1, 999)}:{(W8 - 8) // 8 * (ha - 1)},0,0,{W8 - 8},{ha - 1}"])
             break
     return out
 
@@ -595,6 +605,8 @@ def gen_c07(tier, seed):
         parts = [u for u in A if u[0].split(",")[0] in ("part", "pold", "part2", "pachro")]
         for c in range(p.colors):
             hist = [[], ["clear"], ["sleep", "wake"]] + parts[:1]
+            # (wave 15) a narrow partial update followed by a whole-panel / left-edge / aliasing one
+            hist += [parts[0] + w for w in whole_panel_partials(p, rnd)] if parts else []
             # every mode-setting call of the driver (a clear_frame that looks at the stored mode),
             # and an update + display before the clear
             hist += [u for u in A if u[0] in ("lut,quick", "lut,full", "refresh,quick")]
@@ -754,7 +766,8 @@ def gen_c11(tier, seed):
             if feat == "v2" and p.name != "epd2in13_v2":
                 continue
             k = 0
-            for delay in ("none", "0", "1", "250"):
+            # (wave 15: idle delays LONGER than the fixed reset timings too — 250 ms, 1 s)
+            for delay in ("none", "0", "1", "250", "250000", "1000000"):
                 for ops in (["new"], ["new", "wake"], ["new", "sleep", "wake"], ["new", "wake", "wake"], ["new", "clear", "wake"]):
                     out[feat].append(PN.line(f"c11-{feat}-{p.name}-{k}", p, ops, sched=sched_for(rnd), delay=delay))
                     k += 1
@@ -921,12 +934,15 @@ def gen_c04(tier, seed, ctx=None):
             prefixed = re.search(r"-s\d+x\d+$", sid) is not None
             is_target = (len(ops) == 1 and oi == 0) or (len(ops) > 1 and oi >= (2 if prefixed else 1))
             if is_target and idxs:
-                lim = (6 if prefixed else 10) if tier == "quick" else (24 if prefixed else 60)
+                lim = (10 if prefixed else 12) if tier == "quick" else (24 if prefixed else 60)
                 if p.name in exhaustive:
                     lim = 10 ** 9
                 if len(idxs) > lim:
-                    keep = {idxs[0], idxs[-1]}
-                    keep |= set(rnd.sample(idxs, lim - 2))
+                    # (wave 15) the first two and the LAST FOUR transfers of the call are always kept: the
+                    # trailing command transfers (refresh trigger, activation, deep sleep) are where "the
+                    # last step failed but something still follows" lives
+                    keep = set(idxs[:2]) | set(idxs[-4:])
+                    keep |= set(rnd.sample(idxs, max(0, lim - len(keep))))
                     idxs = sorted(keep)
                 opname = ops[oi].split(",")[0]
                 for kf in idxs:
